@@ -8,9 +8,9 @@ from lib.mir import AnchorMissing
 from . import nf_common, nfq
 
 MANIFEST = {
-    "text": "Pairing and dependence rules on rcdom: every function that mutates a children vector also writes the parent link of the affected children on the same paths (parent link <=> child list); every search loop that stores its candidate tests the candidate (not an unrelated value); text merging precedes node creation; plus equality of every rcdom function (TreeSink impl, Serialize, Drop, helpers) with its reviewed normal form.",
-    "note": "Decides R20.1-R20.4. Not decided: equality with an abstract DOM for arbitrary call sequences; clone_with_subtree is recursive in the depth of the cloned subtree (recorded under C04).",
-    "technique": "pairing / def-use dependence rules over the syntax tree and function normal forms",
+    "text": 'Pairing and dependence rules on rcdom: every function that mutates a children vector also writes the parent link of the affected children on the same paths (parent link <=> child list); every search loop that stores its candidate tests the candidate (not an unrelated value); text merging precedes node creation; plus equality of every rcdom function (TreeSink impl, Serialize, Drop, helpers) with its reviewed normal form. Child vectors are changed only by order-preserving operations and reparent_children appends (R20.5).',
+    "note": 'Decides R20.1-R20.5. Not decided: equality with an abstract DOM for arbitrary call sequences.',
+    "technique": 'pairing / def-use dependence rules over the syntax tree and function normal forms',
 }
 LEVEL = "other"
 EXPLANATION = """
